@@ -159,9 +159,8 @@ pub(crate) fn checked_mul_ct_log_budget(
     lhs_log_delta: usize,
     rhs_log_delta: usize,
 ) -> Result<usize> {
-    lhs_log_budget
-        .min(rhs_log_budget)
-        .checked_sub(lhs_log_delta.max(rhs_log_delta))
+    (lhs_log_budget + rhs_log_budget)
+        .checked_sub((lhs_log_budget + lhs_log_delta).max(rhs_log_budget + rhs_log_delta))
         .ok_or_else(|| {
             CKKSCompositionError::MultiplicationPrecisionUnderflow {
                 op,
